@@ -338,6 +338,8 @@ func decodeKey(seq ansi.Sequence) Key {
 			key.Keycode = KeyRight
 		case 'D':
 			key.Keycode = KeyLeft
+		case 'E':
+			key.Keycode = KeyKeyPadBegin
 		case 'F':
 			key.Keycode = KeyEnd
 		case 'H':
@@ -350,6 +352,43 @@ func decodeKey(seq ansi.Sequence) Key {
 			key.Keycode = KeyF03
 		case 'S':
 			key.Keycode = KeyF04
+		// Application keypad mode (DECKPAM, which we enable)
+		case 'M':
+			key.Keycode = KeyKeyPadEnter
+		case 'X':
+			key.Keycode = KeyKeyPadEqual
+		case 'j':
+			key.Keycode = KeyKeyPadMultiply
+		case 'k':
+			key.Keycode = KeyKeyPadAdd
+		case 'l':
+			key.Keycode = KeyKeyPadSeparator
+		case 'm':
+			key.Keycode = KeyKeyPadSubtract
+		case 'n':
+			key.Keycode = KeyKeyPadDecimal
+		case 'o':
+			key.Keycode = KeyKeyPadDivide
+		case 'p':
+			key.Keycode = KeyKeyPad0
+		case 'q':
+			key.Keycode = KeyKeyPad1
+		case 'r':
+			key.Keycode = KeyKeyPad2
+		case 's':
+			key.Keycode = KeyKeyPad3
+		case 't':
+			key.Keycode = KeyKeyPad4
+		case 'u':
+			key.Keycode = KeyKeyPad5
+		case 'v':
+			key.Keycode = KeyKeyPad6
+		case 'w':
+			key.Keycode = KeyKeyPad7
+		case 'x':
+			key.Keycode = KeyKeyPad8
+		case 'y':
+			key.Keycode = KeyKeyPad9
 		}
 	case ansi.CSI:
 		if len(seq.Parameters) == 0 {
